@@ -194,6 +194,11 @@ func main() {
 		r.Require("d_scoped_cache_serves_ttl_judged", 60)
 		r.Require("d_scoped_hits_checked_for_refresh", 80)
 		r.Require("d_background_refreshes_of_global_entries", 10)
+		// tailored NODATA answers: the path on which the authority's scope does reach the cache
+		r.Require("d_scoped_negative_answers_served", 60)
+		r.Require("d_scoped_negative_cache_serves_inside_scope", 30)
+		r.Require("d_scoped_negative_cache_serves_ttl_judged", 25)
+		r.Require("d_scoped_negative_hits_checked_for_refresh", 30)
 	}
 
 	r.Finish("distinct = (family, forwarded length, ceilings, entry) forwarding shapes whose upstream option matched the recomputation + (family, declared, forwarded, effective) scoped cache serves inside the audience; part D adds the same two classes observed at the real authorities (dfwd/…, daud/…)")
